@@ -54,6 +54,8 @@ type Ctx struct {
 	nt     map[string]bool
 	Tier   string
 	Replay *Violation // non-nil when replaying
+	Worker, Workers int
+	Stop   bool // set by an engine whose enumeration is exhausted
 }
 
 func (c *Ctx) Count(k string, n int) { c.Res.Counters[k] += n }
@@ -114,7 +116,7 @@ func TestWorker(t *testing.T) {
 	out := os.Getenv("VERIF_OUT")
 	progress := os.Getenv("VERIF_PROGRESS")
 	res := &Result{Engine: name, Seed: seed, From: from, To: to, Counters: map[string]int{}, Max: map[string]int{}}
-	ctx := &Ctx{Res: res, nt: map[string]bool{}, Tier: os.Getenv("VERIF_TIER")}
+	ctx := &Ctx{Res: res, nt: map[string]bool{}, Tier: os.Getenv("VERIF_TIER"), Worker: envInt("VERIF_WORKER", 0), Workers: envInt("VERIF_WORKERS", 1)}
 	start := time.Now()
 	write := func() {
 		res.WallS = time.Since(start).Seconds()
@@ -166,6 +168,9 @@ func TestWorker(t *testing.T) {
 		zsimrt.Activate(r)
 		e.run(ctx, r)
 		zsimrt.Deactivate()
+		if ctx.Stop {
+			break
+		}
 		res.Runs++
 		res.Done = i + 1
 		if res.Runs%2000 == 0 {
